@@ -714,9 +714,11 @@ impl BuildJob<'_> {
             &format!(
                 "{} {}",
                 rv,
+                // (a script may have replaced the target's directory by a
+                // file: the name can then no longer be resolved)
                 state::target_relpath(ptx.state().env(), &t)
-                    .expect("cannot format target as relative path")
-                    .as_str()
+                    .map(|p| p.as_str().to_string())
+                    .unwrap_or_else(|_| t.as_str().to_string())
             ),
             None,
         );
@@ -1136,6 +1138,9 @@ fn try_stat<P: AsRef<Path>>(path: P) -> io::Result<Option<Metadata>> {
         Ok(m) => Ok(Some(m)),
         Err(e) => match e.kind() {
             io::ErrorKind::NotFound => Ok(None),
+            // A path that leads through a regular file names nothing (a
+            // script may have replaced the target's directory by a file).
+            _ if e.raw_os_error() == Some(libc::ENOTDIR) => Ok(None),
             _ => Err(e),
         },
     }
